@@ -332,6 +332,9 @@ func isAlpha(s string) bool {
 func lexSpace(l *lexer) stateFn {
 	for {
 		str := l.next()
+		if str == delimEOF {
+			break
+		}
 		if !isSpace(str) {
 			l.backup()
 			break
@@ -346,6 +349,9 @@ func lexSpace(l *lexer) stateFn {
 func lexNumber(l *lexer) stateFn {
 	for {
 		str := l.next()
+		if str == delimEOF {
+			break
+		}
 		if !isNumeric(str) {
 			l.backup()
 			break
@@ -360,6 +366,9 @@ func lexNumber(l *lexer) stateFn {
 func lexPunctuation(l *lexer) stateFn {
 	for {
 		str := l.next()
+		if str == delimEOF {
+			break
+		}
 		if !isPunctuation(str) {
 			l.backup()
 			break
